@@ -167,6 +167,8 @@ func (b *Builder) ExportFunc(name string) *UnexportedFuncMocker {
 
 // Var 变量 mock, target 类型必须传递指针类型
 func (b *Builder) Var(v interface{}) VarMock {
+	// a Pkg override applies to the next lookup only, also when that lookup is a variable
+	defer b.reset2CurPkg()
 	cacheKey := fmt.Sprintf("var_%d", reflect.ValueOf(v).Pointer())
 	if mocker, ok := b.mockers[cacheKey]; ok && !mocker.Canceled() {
 		return mocker.(VarMock)
@@ -186,6 +188,7 @@ func (b *Builder) Var(v interface{}) VarMock {
 //	指针类型比如: &struct A{}
 // Set(value)时, value类型必须和变量原值的类型一致，否则会出现不可预测的异常行为
 func (b *Builder) UnExportedVar(path string) UnExportedVarMock {
+	defer b.reset2CurPkg()
 	cacheKey := fmt.Sprintf("ue_var_%s", path)
 	if mocker, ok := b.mockers[cacheKey]; ok && !mocker.Canceled() {
 		return mocker.(UnExportedVarMock)
